@@ -297,14 +297,15 @@ def rule_SS3(ctx, rep):
         # the point is a temporary computed from the loop variable (x = i + 1)
         pt = to_lin(_xp_arith(fn, ast.Name(id=xv, ctx=ast.Load()), body[0], pm), opaque=False)
         if pt is not None and len(pt.syms()) == 1 and pt.coef(next(iter(pt.syms()))) == 1:
-            xb = [b for b in binders if next(iter(pt.syms())) in b.names() and b.kind == 'range']
+            v0 = next(iter(pt.syms()))
+            xb = [b for b in binders if v0 in b.names() and (b.kind == 'range' or (b.kind == 'enum' and b.pos == v0))]
     pl = xb[-1].node if xb else None
     rows_tbl = None        # name of the table whose rows are enumerated together with the point
     pts_ok = False
     if xb and xb[-1].kind == 'range':
         pts_ok = xb[-1].lo + pt.c == Lin(1) and xb[-1].hi + pt.c == Lin.sym(mp)
-    elif xb and xb[-1].kind == 'enum' and xb[-1].pos == xv and xb[-1].start == 1 and isinstance(xb[-1].src, ast.Name):
-        # enumerate(<table with one row per party>, start=1)
+    elif xb and xb[-1].kind == 'enum' and pt is not None and pt.coef(xb[-1].pos) == 1 and xb[-1].start + pt.c == 1 and isinstance(xb[-1].src, ast.Name):
+        # enumerate(<table with one row per party>[, start=k]) with the point = position - k + 1
         tbl = astq.sole_definition(fn.node, xb[-1].src.id)
         if isinstance(tbl, ast.ListComp) and len(tbl.generators) == 1 and _range_bounds(tbl.generators[0].iter) \
                 and _range_bounds(tbl.generators[0].iter)[1] == Lin.sym(mp) - 1:
@@ -331,7 +332,9 @@ def rule_SS3(ctx, rep):
         row_ok = False
         if isinstance(tgt.value, ast.Subscript):
             rl = to_lin(_xp_arith(fn, tgt.value.slice, stores[0], pm), opaque=False)
-            row_ok = rl is not None and rl == pt - 1
+            row_ok = rl is not None and rl == pt - 1 and (rows_tbl is None or norm(tgt.value.value) == rows_tbl[0])
+            if rows_tbl is not None and row_ok:
+                row_ok = rl == Lin.sym(xb[-1].pos) - xb[-1].start          # indexed by position in the enumerated table
         elif rows_tbl is not None and isinstance(tgt.value, ast.Name) and tgt.value.id == rows_tbl[1]:
             row_ok = True          # the row enumerated together with its point (start=1)
         sec = None
@@ -759,7 +762,18 @@ def rule_SS7(ctx, rep):
     # siblings
     rl, ra = model.func('thresha::recombine'), model.func('thresha::np_recombine')
     cl, ca = calls_named(rl.node, '_recombination_vector'), calls_named(ra.node, '_recombination_vector')
-    if len(cl) == 1 and len(ca) == 1 and norm(cl[0]) == norm(ca[0]):
+    def vec_call(f, c):
+        """(field argument, coordinates argument, what the recombination point ranges over) of the vector call, names resolved"""
+        bs, _g = routes._context(f, c, parents(f.node))
+        a2 = c.args[2] if len(c.args) > 2 else None
+        over = None
+        if isinstance(a2, ast.Name):
+            for b_ in bs:
+                if b_.kind in ('iter', 'enum') and b_.elem == a2.id and b_.src is not None:
+                    over = norm(b_.src)
+        return (norm(c.args[0]), norm(c.args[1]), over) if len(c.args) > 2 else None
+    if len(cl) == 1 and len(ca) == 1 and vec_call(rl, cl[0]) is not None and vec_call(rl, cl[0]) == vec_call(ra, ca[0]) \
+            and vec_call(rl, cl[0])[2] == rl.params[2]:
         rep.ok('SS7', ra, ca[0], 'list and array recombination use the same recombination vector call')
     else:
         rep.bad('SS7', ra, ca[0] if ca else ra.qualname, 'list and array recombination compute their Lagrange vectors differently', ra.node)
@@ -823,18 +837,25 @@ def rule_PR1(ctx, rep):
     f0, f0n = model.func('thresha::pseudorandom_share_zero'), model.func('thresha::np_pseudorandom_share_0')
     for f in (f1, f1n, f0, f0n):
         fieldp, mp, ip, prfsp, ucip, np_ = f.params[:6]
-        its = [x for x in iter_nodes(f.node) if isinstance(x, (ast.For, ast.comprehension)) and norm(x.iter) == f'{prfsp}.items()']
-        if len(its) != 1 or (isinstance(its[0], ast.comprehension) and its[0].ifs):
+        # the enumeration of the held subsets with their PRFs: `for S, prf in prfs.items()`, or `for S in prfs` / `prfs.keys()` with prfs[S]
+        from . import routes
+        pmf = parents(f.node)
+        its = []
+        for x in iter_nodes(f.node):
+            if isinstance(x, (ast.For, ast.comprehension)):
+                b = routes.binder_of(f, x.target, x.iter, x, pmf, x)
+                if b is not None and b.kind == 'iter' and b.src is not None and norm(b.src) in (prfsp, f'{prfsp}.keys()') and b.elem:
+                    its.append((x, b))
+        if len(its) != 1 or (isinstance(its[0][0], ast.comprehension) and its[0][0].ifs):
             rep.bad('PR1', f, f.qualname, 'the share is not a sum over all held subset PRFs', f.node)
             continue
-        tgt = its[0].target
-        Sv, pv = norm(tgt.elts[0]), norm(tgt.elts[1])
+        Sv, pv = its[0][1].elem, its[0][1].value_var
         fs = calls_named(f.node, '_f_S_i')
         if len(fs) == 1 and [norm(a) for a in fs[0].args] == [fieldp, mp, ip, Sv]:
             rep.ok('PR1', f, fs[0], 'each PRF output is weighted with f_S evaluated for this party and this subset')
         else:
             rep.bad('PR1', f, fs[0] if fs else f.qualname, 'f_S is not evaluated with (field, m, i, S) of the subset being summed', f.node)
-        pc = [c for c in iter_nodes(f.node) if isinstance(c, ast.Call) and norm(c.func) == pv]
+        pc = [c for c in iter_nodes(f.node) if isinstance(c, ast.Call) and ((pv is not None and norm(c.func) == pv) or norm(c.func) == f'{prfsp}[{Sv}]')]
         if len(pc) != 1 or norm(pc[0].args[0]) != ucip:
             rep.bad('PR1', f, pc[0] if pc else f.qualname, 'the subset PRF is not evaluated on the common input', f.node)
             continue
